@@ -131,7 +131,10 @@ KINDS = ("io", "bufferedio", "consoleio", "nullio", "out", "err", "sec-out", "se
 FORMATTERS = ("ansi-forced", "ansi-stream", "plain")
 
 
-def synth(method, flags="absent"):
+TEXTS = ["PROBE", "", "\n", "two\nlines\n"]
+
+
+def synth(method, flags="absent", text="PROBE"):
     """Build call arguments from the signature, or None if it cannot be satisfied."""
     try:
         sig = inspect.signature(method)
@@ -143,7 +146,7 @@ def synth(method, flags="absent"):
         if p.kind in (p.VAR_POSITIONAL, p.VAR_KEYWORD):
             continue
         if p.name in STRINGY:
-            args[p.name] = "PROBE"
+            args[p.name] = text
         elif p.name == "flags":
             has_flags = True
             if flags != "absent":
@@ -191,19 +194,62 @@ def discover(lab, sh):
     return found, sorted(unprobed)
 
 
-def run_cell(lab, kind, fk, name, has_flags, v, q, fl, depth=1):
+def run_cell(lab, kind, fk, name, has_flags, v, q, fl, depth=1, text="PROBE", indent=0):
     obj, gate, (so, se), prefill = lab.make(kind, fk, depth)
     gate(4, False)
     prefill()
     gate(v, q)
     m = getattr(obj, name)
-    sy = synth(m, fl if has_flags else "absent")
-    m(**sy[0])
+    sy = synth(m, fl if has_flags else "absent", text)
+    if indent:
+        with obj.indent(indent):
+            m(**sy[0])
+    else:
+        m(**sy[0])
     return bool(so.fetch() or se.fetch()), so.fetch() + se.fetch()
 
 
+def run_pairs(sh, lab, found):
+    """Two live outputs with different settings: each one is gated by its OWN verbosity / quiet flag,
+    whatever was written to the other one just before."""
+    names = sorted(set(n for (k, f, n), hf in found.items() if hf and k == "out"))
+    for fk in FORMATTERS:
+        for name in names:
+            for fl in (1, 2, 4, 3, 6):
+                for (v1, q1), (v2, q2) in (((4, False), (0, False)), ((0, False), (4, False)), ((1, False), (2, False)), ((2, False), (1, False)),
+                                           ((4, False), (4, True)), ((4, True), (4, False))):
+                    io1, g1, (so1, se1), _ = lab.make("io", fk)
+                    io2, g2, (so2, se2), _ = lab.make("io", fk)
+                    sec = io1.output.section()
+                    g1(v1, q1)
+                    g2(v2, q2)
+                    case = {"kind": "pair", "formatter": fk, "method": name, "flags": fl, "first": [v1, q1], "second": [v2, q2]}
+                    sh.case(("pair", fk, name, fl, v1, q1, v2, q2), True)
+                    try:
+                        getattr(io1.output, name)("FIRST", fl)
+                        getattr(io2.output, name)("SECOND", fl)
+                        getattr(io1.error_output, name)("THIRD", fl)
+                        # a section created from a gated output starts with its own (default) settings
+                        getattr(sec, name)("SECTION", fl)
+                    except Exception as e:
+                        sh.violate("cell-raises", case, "raised %r" % (e,))
+                        continue
+                    sh.count("pair_cells")
+                    w1 = (not q1) and v1 >= lowest(fl)
+                    w2 = (not q2) and v2 >= lowest(fl)
+                    if ("FIRST" in so1.fetch()) != w1 or ("SECOND" in so2.fetch()) != w2 or ("THIRD" in se1.fetch()) != w1:
+                        sh.violate("gate", case, "two live outputs: first (v=%d,q=%s) wrote %r / %r, second (v=%d,q=%s) wrote %r" % (
+                            v1, q1, so1.fetch()[:20], se1.fetch()[:20], v2, q2, so2.fetch()[:20]))
+                    if ("SECTION" in so1.fetch()) != (0 >= lowest(fl)):
+                        sh.violate("gate", case, "a new section (verbosity 0, not quiet) wrote %r for flags %r" % (so1.fetch()[:30], fl))
+
+
 def plan(tier, seed):
-    return [{"depths": [1]}] if tier == "quick" else [{"depths": [1]}, {"depths": [2]}]
+    groups = [list(KINDS[i::4]) for i in range(4)]
+    specs = [{"depths": [1], "kinds": g, "pairs": i == 0} for i, g in enumerate(groups)]
+    if tier != "quick":
+        specs += [{"depths": [2], "kinds": g, "pairs": False} for g in groups]
+    return specs
 
 
 def run(sh, spec):
@@ -212,13 +258,15 @@ def run(sh, spec):
     found, unprobed = discover(lab, sh)
     sh.note("writing_methods", sorted("%s/%s/%s" % k for k in found))
     sh.note("unprobed", unprobed)
-    sh.count("writing_entry_points", len(found))
+    sh.count("writing_entry_points", len([k for k in found if k[0] in spec["kinds"]]))
     for k in found:
         sh.tag("methods", k[2])
     table = {}
     for depth in spec["depths"]:
         for (kind, fk, name), has_flags in sorted(found.items()):
             if depth > 1 and "sec" not in kind:
+                continue
+            if kind not in spec["kinds"]:
                 continue
             for v in VERBOSITIES:
                 for q in (False, True):
@@ -237,6 +285,24 @@ def run(sh, spec):
                         if arrived != want:
                             sh.violate("gate", case, "%s.%s(flags=%r) at verbosity %d quiet=%s: arrived=%s (%r), expected %s" % (
                                 kind, name, fl, v, q, arrived, text[:40], want))
+                        # other message texts and an indentation scope: a closed gate lets nothing through,
+                        # an open gate lets through exactly what the un-gated call writes
+                        if fl in (None, 1, 4, 6) or q:
+                            for txt, ind in ((TEXTS[1], 0), (TEXTS[2], 0), (TEXTS[3], 0), ("PROBE", 3), (TEXTS[2], 3)):
+                                if name in ("clear",) and txt != TEXTS[1]:
+                                    continue
+                                c2 = dict(case, text=txt, indent=ind)
+                                sh.case((kind, fk, name, v, q, fl, depth, txt, ind), True)
+                                try:
+                                    base = run_cell(lab, kind, fk, name, has_flags, 4, False, fl, depth, txt, ind)[1]
+                                    got = run_cell(lab, kind, fk, name, has_flags, v, q, fl, depth, txt, ind)[1]
+                                except Exception as e:
+                                    sh.violate("cell-raises", c2, "raised %r" % (e,))
+                                    continue
+                                sh.count("variant_cells")
+                                if got != (base if want else ""):
+                                    sh.violate("gate", c2, "%s.%s(%r, flags=%r, indent=%d) at verbosity %d quiet=%s wrote %r, expected %r" % (
+                                        kind, name, txt, fl, ind, v, q, got[:40], (base if want else "")[:40]))
     # monotonicity on what was actually observed
     for (kind, fk, name, depth, fl, v, q), arrived in table.items():
         if not arrived:
@@ -248,6 +314,8 @@ def run(sh, spec):
         if q and table.get((kind, fk, name, depth, fl, v, False)) is False:
             sh.violate("monotonic", {"kind": kind, "formatter": fk, "method": name, "flags": fl, "depth": depth, "verbosity": v, "quiet": False, "has_flags": fl is not None},
                        "shown when quiet but not when not quiet")
+    if spec.get("pairs"):
+        run_pairs(sh, lab, found)
     sh.sample({"kind": "sec-out", "formatter": "ansi-forced", "method": "write_line", "verbosity": 0, "quiet": False, "flags": 4})
     sh.sample({"kind": "io", "formatter": "plain", "method": "error_raw", "verbosity": 2, "quiet": True, "flags": 2})
 
@@ -255,8 +323,8 @@ def run(sh, spec):
 def finalize(tier, merged):
     c = merged["counters"]
     inc = []
-    shards = 1 if tier == "quick" else 2
-    if c.get("writing_entry_points", 0) < 20 * shards:
+    shards = 1 if tier == "quick" else 1.3
+    if c.get("writing_entry_points", 0) < 150 * shards:
         inc.append("reflection found only %d writing entry points" % c.get("writing_entry_points", 0))
     if not c.get("cells_arrived") or not c.get("cells_suppressed"):
         inc.append("table is degenerate: %r" % (c,))
